@@ -36,6 +36,7 @@ type fnInfo struct {
 	Free   []varInfo `json:"free,omitempty"`
 	FP     string    `json:"fp"`
 	Anon   []string  `json:"anon,omitempty"` // directly nested closures, in ssa order (raw names)
+	MutPar []string  `json:"mutpar,omitempty"` // parameters that the function itself reassigns or writes into
 }
 
 // package-level because shortName is a pure function used everywhere
@@ -250,7 +251,124 @@ func collectFn(fn *ssa.Function) *fnInfo {
 	for _, an := range fn.AnonFuncs {
 		fi.Anon = append(fi.Anon, rawShortName(an.String()))
 	}
+	fi.MutPar = mutatedParams(fn)
 	return fi
+}
+
+// mutatedParams: parameters whose spill slot is stored to after the initial spill, written through (a field or
+// element of a by-value parameter), declared again under the same name, or whose address escapes.
+func mutatedParams(fn *ssa.Function) []string {
+	var out []string
+	count := map[string]int{}
+	for _, a := range sortedAllocs(fn) {
+		count[a.Comment]++
+	}
+	for _, p := range fn.Params {
+		var slot *ssa.Alloc
+		if p.Referrers() != nil {
+			for _, r := range *p.Referrers() {
+				if st, ok := r.(*ssa.Store); ok && st.Val == p {
+					if a, ok := st.Addr.(*ssa.Alloc); ok && a.Comment == p.Name() {
+						slot = a
+					}
+				}
+			}
+		}
+		if slot == nil {
+			continue
+		}
+		mut := count[p.Name()] > 1
+		var visit func(v ssa.Value, root bool)
+		seen := map[ssa.Value]bool{}
+		visit = func(v ssa.Value, root bool) {
+			if seen[v] || v.Referrers() == nil {
+				return
+			}
+			seen[v] = true
+			for _, r := range *v.Referrers() {
+				switch x := r.(type) {
+				case *ssa.Store:
+					if x.Addr == v && !(root && x.Val == ssa.Value(p)) {
+						mut = true
+					}
+					if x.Val == v {
+						mut = true // the address is stored somewhere
+					}
+				case *ssa.FieldAddr:
+					if x.X == v {
+						visit(x, false)
+					}
+				case *ssa.IndexAddr:
+					if x.X == v {
+						if _, isArr := x.X.Type().Underlying().(*types.Pointer).Elem().Underlying().(*types.Array); isArr {
+							visit(x, false)
+						}
+					}
+				case *ssa.UnOp, *ssa.DebugRef:
+				case ssa.CallInstruction:
+					mut = true // address passed to a call
+				case *ssa.MakeClosure:
+					cf := x.Fn.(*ssa.Function)
+					for j, b := range x.Bindings {
+						if b == v && j < len(cf.FreeVars) && closureWrites(cf, cf.FreeVars[j], map[*ssa.Function]bool{}) {
+							mut = true
+						}
+					}
+				case *ssa.MakeInterface, *ssa.Phi, *ssa.Slice, *ssa.ChangeType, *ssa.Convert:
+					mut = true
+				}
+			}
+		}
+		visit(slot, true)
+		if mut {
+			out = append(out, p.Name())
+		}
+	}
+	return out
+}
+
+// closureWrites: does fn (or a closure it creates) store through the captured variable fv?
+func closureWrites(fn *ssa.Function, fv *ssa.FreeVar, seen map[*ssa.Function]bool) bool {
+	if seen[fn] || fv.Referrers() == nil {
+		return false
+	}
+	seen[fn] = true
+	var visit func(v ssa.Value) bool
+	visit = func(v ssa.Value) bool {
+		if v.Referrers() == nil {
+			return false
+		}
+		for _, r := range *v.Referrers() {
+			switch x := r.(type) {
+			case *ssa.Store:
+				if x.Addr == v || x.Val == v {
+					return true
+				}
+			case *ssa.FieldAddr:
+				if x.X == v && visit(x) {
+					return true
+				}
+			case *ssa.IndexAddr:
+				if x.X == v {
+					if _, isArr := x.X.Type().Underlying().(*types.Pointer).Elem().Underlying().(*types.Array); isArr && visit(x) {
+						return true
+					}
+				}
+			case *ssa.UnOp, *ssa.DebugRef:
+			case *ssa.MakeClosure:
+				cf := x.Fn.(*ssa.Function)
+				for j, b := range x.Bindings {
+					if b == v && j < len(cf.FreeVars) && closureWrites(cf, cf.FreeVars[j], seen) {
+						return true
+					}
+				}
+			default:
+				return true
+			}
+		}
+		return false
+	}
+	return visit(fv)
 }
 
 func collectNames(fns []*ssa.Function) map[string]*fnInfo {
@@ -692,4 +810,44 @@ func (e *Engine) allocName(a *ssa.Alloc) string {
 		return seq[idx]
 	}
 	return a.Comment
+}
+
+// entryParam: if name denotes (in the pinned source) a parameter of fn that the pinned function never reassigns,
+// contracts mean the argument itself: the index of the parameter, else -1.
+func (e *Engine) entryParam(fn *ssa.Function, name string) int {
+	if e.names == nil || e.names.base == nil || fn == nil {
+		return -1
+	}
+	bi := e.names.base[shortName(fn.String())]
+	if bi == nil {
+		return -1
+	}
+	for _, m := range bi.MutPar {
+		if m == name {
+			return -1
+		}
+	}
+	for i, p := range bi.Params {
+		if p.N == name && i < len(fn.Params) {
+			return i
+		}
+	}
+	return -1
+}
+
+// isNewCode: a module function (or closure) that has no counterpart in the pinned source.
+func (e *Engine) isNewCode(fn *ssa.Function) bool {
+	if e.names == nil || e.names.base == nil || fn == nil || len(fn.Blocks) == 0 {
+		return false
+	}
+	if fn.Pkg == nil || !strings.HasPrefix(fn.Pkg.Pkg.Path(), modPath) {
+		if fn.Parent() == nil || fn.Parent().Pkg == nil || !strings.HasPrefix(fn.Parent().Pkg.Pkg.Path(), modPath) {
+			return false
+		}
+	}
+	n := strings.TrimSuffix(shortName(fn.String()), "$bound")
+	if strings.Contains(n, "$new") {
+		return true
+	}
+	return e.names.base[n] == nil
 }
